@@ -426,6 +426,9 @@ def template_programs():
     add("fn_name_hidden_by_scalar", {"step": step,
         "main": Fn([], Block([Expr(Block([Let("step", I(7)), Print(V("step"))])), Print(Call("step", I(1))),
                               Let("f", V("step")), Expr(Block([Let("step", I(8)), Print(CallV(V("f"), V("step")))]))]))})
+    add("fn_values_displayed", {"step": step, "mk": Fn([], Block([], times10), "fn(n: int) -> int"),
+        "main": Fn([], Block([Let("f", V("step")), Let("g", times10), Let("h", Call("mk")), Print(V("step"), V("f"), V("g"), V("h")),
+                              Print(List(V("f"), V("g"))), Print(Obj(a=V("f"), b=V("h")))]))})
     add("fn_name_hidden_in_callee_only", {"step": step,
         "twice": Fn(["step"], Block([], Bin("*", V("step"), I(2))), "int", ["int"]),
         "main": Fn([], Block([Print(Call("twice", Call("step", I(1))), Call("step", Call("twice", I(1))))]))})
